@@ -388,6 +388,7 @@ func TestWorker(t *testing.T) {
 	if p := os.Getenv("VERIF_CUR"); p != "" {
 		curF, _ = os.Create(p)
 	}
+	nrun := 0
 	for i := from; i < to; i += stride {
 		if deadline > 0 && time.Now().Unix() >= deadline {
 			break
@@ -433,6 +434,18 @@ func TestWorker(t *testing.T) {
 			// a violating run may leave process-wide state behind: the driver
 			// continues the remaining indices in a fresh process
 			break
+		}
+		// what thousands of finished bubbles leave behind (timers that never
+		// fire, goroutines blocked for ever) adds up over a long batch: past a
+		// bound the slot continues in a fresh process (a thorough run once grew
+		// to 11 GB and was killed by the kernel)
+		if nrun++; nrun%256 == 0 && os.Getenv("VERIF_CONTINUE") == "" {
+			var ms runtime.MemStats
+			runtime.ReadMemStats(&ms)
+			if ms.Sys > uint64(envInt("VERIF_WORKER_MEM_MB", 1536))<<20 {
+				enc.Encode(map[string]interface{}{"resume": i + stride})
+				break
+			}
 		}
 	}
 }
